@@ -52,7 +52,16 @@ func Tick() {
 	}
 }
 
+// TickYield makes every tick a scheduling point of the controlled execution
+// (instruction-level interleaving of code that has no other visible operation).
+var TickYield bool
+
 func tickSlow() {
+	if TickYield {
+		if s := sched; s != nil && !s.aborting {
+			s.point(Op{Kind: OpYield})
+		}
+	}
 	ticks++
 	if ticks > horizon {
 		HorizonHit = true
